@@ -61,10 +61,17 @@ type Model struct {
 	// attestation still in the store the invariant ties it to the store's own vote list, and entries of deleted
 	// attestations are never looked at again.
 	Cast map[string][]string
+	// Last: oracle index -> the event nonce of its latest accepted vote, for as long as its oracle record lives
+	// (an oracle that unbonds and bonds again is a new record and starts over). An oracle votes for every nonce once,
+	// in order: neither the same nonce twice nor one left out.
+	Last map[int]uint64
 }
 
 func (m *Model) Clone() explore.Model {
-	c := &Model{Obs: map[uint64]string{}, Events: map[uint64]int{}, Exec: map[uint64]int{}, Base: m.Base, Cast: map[string][]string{}}
+	c := &Model{Obs: map[uint64]string{}, Events: map[uint64]int{}, Exec: map[uint64]int{}, Base: m.Base, Cast: map[string][]string{}, Last: map[int]uint64{}}
+	for k, v := range m.Last {
+		c.Last[k] = v
+	}
 	for k, v := range m.Cast {
 		c.Cast[k] = v // slices are only ever replaced by appended copies
 	}
@@ -89,6 +96,14 @@ func (m *Model) Canon() []byte {
 	sort.Slice(ks, func(i, j int) bool { return ks[i] < ks[j] })
 	for _, k := range ks {
 		fmt.Fprintf(&b, "o%d=%s;e%d;x%d|", k, m.Obs[k], m.Events[k], m.Exec[k])
+	}
+	var os []int
+	for k := range m.Last {
+		os = append(os, k)
+	}
+	sort.Ints(os)
+	for _, k := range os {
+		fmt.Fprintf(&b, "l%d=%d|", k, m.Last[k])
 	}
 	return b.Bytes()
 }
@@ -142,7 +157,11 @@ func (s *Spec) Init() *explore.State {
 	// the first oracle set is created by the first end-blocker; nothing to confirm yet.
 	_ = k
 	base := w.App.BankKeeper.GetBalance(ctx, w.A("u1").Acc(), "FX").Amount.String()
-	return &explore.State{W: w, Ctx: ctx, Model: &Model{Obs: map[uint64]string{}, Events: map[uint64]int{}, Exec: map[uint64]int{}, Base: base, Cast: map[string][]string{}}}
+	last := map[int]uint64{}
+	for i := range bonded {
+		last[i] = 1 // every bonded oracle voted for the set-up event
+	}
+	return &explore.State{W: w, Ctx: ctx, Model: &Model{Obs: map[uint64]string{}, Events: map[uint64]int{}, Exec: map[uint64]int{}, Base: base, Cast: map[string][]string{}, Last: last}}
 }
 
 func (s *Spec) sig(x string) string { return s.Prop + "/" + x }
@@ -214,6 +233,14 @@ func (s *Spec) voteOp(oi int, rel int, variant string) explore.Op {
 		st.Outcome = "accepted"
 		ck := fmt.Sprintf("%d/%x", n, claim.ClaimHash())
 		m.Cast[ck] = append(append([]string(nil), m.Cast[ck]...), o.Acct.Bech())
+		if prev, voted := m.Last[oi]; voted && n != prev+1 {
+			what := "left out"
+			if n <= prev {
+				what = "voted again for"
+			}
+			st.Violate("oracle-votes-every-nonce-once-in-order", s.sig("oracle-vote-out-of-sequence"), fmt.Sprintf("%s accepted for nonce %d: this oracle's latest accepted vote was for nonce %d (it %s a nonce; the stored cursor said %d)", name, n, prev, what, preLast))
+		}
+		m.Last[oi] = n
 		if !online {
 			st.Violate("vote-admission", s.sig("vote-from-non-online-oracle"), fmt.Sprintf("%s (submitted by %s) accepted although oracle registered=%v online=%v bridger-index=%v registered bridger=%s", name, o.Bridger.Bech(), registered, orc.Online, hasIdx, orc.BridgerAddress))
 		}
@@ -296,6 +323,11 @@ func (s *Spec) msgOp(name string, build func(ctx sdk.Context) sdk.Msg) explore.O
 	return explore.Op{Name: name, Run: func(st *explore.State) {
 		r := s.w.Deliver(st.Ctx, build(st.Ctx))
 		st.Accepted = r.OK()
+		if r.OK() && strings.HasPrefix(name, "Unbond(o") {
+			var oi int
+			fmt.Sscanf(name, "Unbond(o%d)", &oi)
+			delete(st.Model.(*Model).Last, oi-1) // the record is gone; a later bond starts a new one
+		}
 		switch {
 		case r.Panic != nil:
 			st.Outcome = "tx-panic"
@@ -432,6 +464,7 @@ func (s *Spec) Ops(st *explore.State) []explore.Op {
 				}
 			}()
 			scen.RestartFromExportedGenesis(s.w, c.Ctx, s.Chain)
+			m.Last = map[int]uint64{} // the import re-derives every oracle's cursor from the attestations it carries
 			c.Accepted = true
 			c.Outcome = "ok"
 			// the export does not carry claims parked for execution: what was observed and not yet executed is gone
